@@ -1,3 +1,157 @@
-import Econf.Parser
+import Econf.Lemmas.ParserLemmas
+
+/-!
+  C13 — parse failures name the right error and line and return nothing partial.
+  (The message table `C13_messages` is in `Econf/Props/Struct.lean`, over the facts extracted
+  from lib/econf_error.c and include/libeconf.h.)
+-/
+
+set_option linter.unusedSimpArgs false
+
 namespace Econf
+
+/-- the three malformed section headers and their codes (text after the `[`) -/
+theorem C13_section_codes (rest : Str) :
+    (RBR ∉ rest → parseSection rest = .error .missingBracket) ∧
+    (dropLastWhile isSpace rest = [RBR] → parseSection rest = .error .emptySectionName) ∧
+    (RBR ∈ rest → (dropLastWhile isSpace rest).getLast? ≠ some RBR → parseSection rest = .error .textAfterSection) := by
+  refine ⟨?_, ?_, ?_⟩
+  · intro h
+    unfold parseSection
+    simp only
+    split
+    · rfl
+    · rename_i l hl
+      have hc : rest.contains RBR = false := by simpa using h
+      have : (l != RBR) = true := by
+        -- the last byte of a suffix-trimmed list is a member of the list
+        have hmem : l ∈ dropLastWhile isSpace rest := List.mem_of_getLast? hl
+        have hsub : l ∈ rest := by
+          unfold dropLastWhile at hmem
+          have := List.mem_reverse.mp hmem
+          have := (List.dropWhile_sublist _).subset this
+          exact List.mem_reverse.mp this
+        simp only [bne_iff_ne, ne_eq]
+        intro hh; exact h (hh ▸ hsub)
+      simp [this, hc, h]
+  · intro h
+    unfold parseSection
+    simp [h, RBR]
+  · intro hm hl
+    unfold parseSection
+    simp only
+    split
+    · rename_i hnone
+      -- nothing left after trimming would mean that every byte is a blank; `]` is not
+      exfalso
+      have hnil : dropLastWhile isSpace rest = [] := List.getLast?_eq_none_iff.mp hnone
+      exact dropLastWhile_ne_nil isSpace rest RBR hm (by decide) hnil
+    · rename_i l hl'
+      have : (l != RBR) = true := by
+        simp only [bne_iff_ne, ne_eq]
+        intro hh; rw [hh] at hl'; exact hl hl'
+      simp [this, hm]
+
+
+/-- a section-header line without comment characters fails with the code of `parseSection`,
+    in every parser state -/
+theorem C13_section_line (cfg : Cfg) (st : PState) (raw rest : Str) (e : Err)
+    (hb : lineBody raw = LBR :: rest) (hc : ∀ c ∈ cfg.comment, c ∉ LBR :: rest)
+    (he : parseSection rest = .error e) : parseLine cfg st raw = .error e := by
+  have hl : cfg.comment.contains LBR = false := by
+    cases h : cfg.comment.contains LBR
+    · rfl
+    · exact absurd (List.mem_cons_self) (hc LBR (by simpa using h))
+  unfold parseLine
+  simp only [hb, hl, Bool.false_eq_true, if_false]
+  rw [scanComments_none _ _ _ _ hc]
+  simp [parseContent, he]
+
+/-- a key followed by text without a delimiter (delimiter set without blanks, line not in
+    continuation position) fails with missing-delimiter, in every parser state -/
+theorem C13_nodelim_line (cfg : Cfg) (st : PState) (raw : Str) (key : Str) (b t : Byte) (more ts : Str)
+    (hb : lineBody raw = key ++ b :: more)
+    (hc : ∀ c ∈ cfg.comment, c ∉ key ++ b :: more)
+    (hkey : key ≠ []) (hk0 : key.head? ≠ some LBR)
+    (hkc : ∀ c ∈ key, isSpace c = false ∧ cfg.delim.contains c = false)
+    (hbs : isSpace b = true)
+    (hmore : ∀ c ∈ more, cfg.delim.contains c = false)
+    (ht : more.dropWhile isSpace = t :: ts)
+    (hw : hasWsp cfg.delim = false) (hnd : noDelim cfg.delim = false)
+    (hcont : lastEntryOnPrevLine { st with line := st.line + 1 } = false) :
+    parseLine cfg st raw = .error .missingDelimiter := by
+  obtain ⟨k0, ks, rfl⟩ : ∃ k0 ks, key = k0 :: ks := by
+    cases key with
+    | nil => exact absurd rfl hkey
+    | cons a as => exact ⟨a, as, rfl⟩
+  have hk0c : cfg.comment.contains k0 = false := by
+    cases h : cfg.comment.contains k0
+    · rfl
+    · exact absurd (by simp) (hc k0 (by simpa using h))
+  have hk0b : (k0 == LBR) = false := by
+    cases h : k0 == LBR
+    · rfl
+    · simp at h; simp [h] at hk0
+  have hbd : cfg.delim.contains b = false := by
+    cases h : cfg.delim.contains b
+    · rfl
+    · -- a blank in the delimiter set contradicts `hasWsp = false`
+      unfold hasWsp at hw
+      have := List.any_eq_false.mp hw b (by simpa using h)
+      simp [hbs] at this
+  have hmixed : mixedDelim cfg.delim = false := by simp [mixedDelim, hw]
+  -- the split of the line
+  have hsplit : splitKey cfg.delim ((k0 :: ks) ++ b :: more) = (k0 :: ks, false, more) := by
+    unfold splitKey
+    have htk : ((k0 :: ks) ++ b :: more).takeWhile (fun c => !(isSpace c || cfg.delim.contains c)) = k0 :: ks := by
+      rw [takeWhile_append_of_all _ _ _ (fun x hx => by rw [(hkc x hx).1, (hkc x hx).2]; rfl)]
+      simp [List.takeWhile_cons, hbs]
+    have hdk : ((k0 :: ks) ++ b :: more).dropWhile (fun c => !(isSpace c || cfg.delim.contains c)) = b :: more := by
+      rw [dropWhile_append_of_all _ _ _ (fun x hx => by rw [(hkc x hx).1, (hkc x hx).2]; rfl)]
+      simp [List.dropWhile_cons, hbs]
+    simp only [htk, hdk, hmixed, Bool.false_eq_true, if_false, hbd]
+  have hany : more.any cfg.delim.contains = false := by
+    apply List.any_eq_false.mpr
+    intro x hx; rw [hmore x hx]; simp
+  unfold parseLine
+  simp only [hb, List.cons_append, hk0c, Bool.false_eq_true, if_false]
+  rw [show k0 :: (ks ++ b :: more) = (k0 :: ks) ++ b :: more from rfl, scanComments_none _ _ _ _ hc]
+  simp only [parseContent, List.cons_append, hk0b, Bool.false_eq_true, if_false, hnd]
+  rw [show k0 :: (ks ++ b :: more) = (k0 :: ks) ++ b :: more from rfl]
+  unfold parseEntry
+  simp only [hsplit]
+  have hnc : isContinuation cfg { st with line := st.line + 1, ca := st.ca } (cstr raw) false more = false := by
+    unfold isContinuation
+    simp only [hany, Bool.or_false, hmixed]
+    have : lastEntryOnPrevLine { st with line := st.line + 1, ca := st.ca } = false := hcont
+    rw [this]; simp
+  simp only [hnc, Bool.false_eq_true, if_false, List.isEmpty_cons]
+  -- the value part
+  have hmne : more ≠ [] := by intro h; rw [h] at ht; simp at ht
+  have htd : cfg.delim.contains t = false := by
+    have : t ∈ more := (List.dropWhile_sublist _).subset (by rw [ht]; simp)
+    exact hmore t this
+  unfold parseValue
+  have hme : more.isEmpty = false := by cases more <;> simp_all
+  simp only [hme, Bool.false_eq_true, if_false, ht, hw, Bool.not_false, Bool.and_self, if_true, htd]
+
+/-- the first failing line determines code and line number (1-based), whatever follows it -/
+theorem C13_first_error (cfg : Cfg) (st1 : PState) (pre : List Str) (bad : Str) (rest : List Str) (e : Err)
+    (hpre : parseLines cfg {} pre = .ok st1) (hbad : parseLine cfg st1 bad = .error e) :
+    parseLines cfg {} (pre ++ bad :: rest) = .error (e, pre.length + 1) := by
+  have := parseLines_first_error cfg {} st1 pre bad rest e hpre hbad
+  simpa using this
+
+/-- every failure is one of the four documented parse errors and names a line of the file -/
+theorem C13_error_range (cfg : Cfg) (ls : List Str) (e : Err) (n : Nat)
+    (h : parseLines cfg {} ls = .error (e, n)) : ParseErr e ∧ 1 ≤ n ∧ n ≤ ls.length := by
+  have := parseLines_err cfg {} ls e n h
+  simp at this
+  exact ⟨this.1, by omega, this.2.2⟩
+
+/-- non-vacuity: `a=1`, `[x] y`, `b=2` with delimiter `=` fails with text-after-section at line 2 -/
+example : (match parseBytes { delim := [0x3d], comment := [0x23] } [0x61, 0x3d, 0x31, 0x0a, 0x5b, 0x78, 0x5d, 0x20, 0x79, 0x0a, 0x62, 0x3d, 0x32, 0x0a] with
+    | .error (e, n) => e == .textAfterSection && n == 2
+    | .ok _ => false) = true := by decide
+
 end Econf
